@@ -71,6 +71,75 @@ def g_c11_prefix(repo):
     same = (one[-1] or 0) > 0 and (late[-1] or 0) == one[-1] and (early[-1] or 0) == one[-1]
     return same, info
 
+
+# ----------------------------------------------------------------------------- C16: portmapper body (bounded stand-in)
+def xdr_str(b):
+    return struct.pack('!I', len(b)) + b + b'\0' * ((4 - len(b) % 4) % 4)
+
+def portmap_expected(xid, vers, proc, ip, port, prog=100000):
+    """The reply the statement of C16 asks for, written from the statement (RFC 5531 accept_stat values:
+    SUCCESS 0, PROG_UNAVAIL 1, PROG_MISMATCH 2, PROC_UNAVAIL 3; RFC 1833 GETPORT/GETADDR/DUMP bodies)."""
+    hdr = struct.pack('!IIIII', xid, 1, 0, 0, 0)
+    if not (2 <= vers <= 4):
+        return hdr + struct.pack('!III', 2, 2, 4)
+    if proc == 0:
+        return hdr + struct.pack('!I', 0)
+    if prog != 100000:
+        return hdr + struct.pack('!I', 1)
+    v6 = ':' in ip
+    canon = socket.inet_ntop(socket.AF_INET6, socket.inet_pton(socket.AF_INET6, ip)) if v6 else ip
+    uaddr = ('%s.%d.%d' % (canon, port >> 8, port & 0xff)).encode()
+    netid = b'tcp6' if v6 else b'tcp'
+    if proc == 3:
+        return hdr + struct.pack('!I', 0) + (struct.pack('!I', port) if vers == 2 else xdr_str(uaddr))
+    if proc == 4:
+        body = b''
+        for k in (2, 3, 4):
+            body += struct.pack('!III', 1, 100000, k)
+            body += struct.pack('!II', 6, port) if vers == 2 else xdr_str(netid) + xdr_str(uaddr) + xdr_str(b'superuser')
+        return hdr + struct.pack('!I', 0) + body + struct.pack('!I', 0)
+    return hdr + struct.pack('!I', 3)
+
+C16_IPS = ['10.0.0.1', '192.168.255.254', '2001:db8::1', 'fe80::c2ff:eeff:fec0:ffee']
+C16_PORTS = [111, 1, 255, 256, 2049, 32768, 65535]
+
+def g_c16_portmap(repo, thorough=False):
+    """BOUNDED stand-in for the assumed contract of rpc::build_repl_portmap (String/format!/str matching, outside
+    the verifier's subset): the portmapper replies of the real binary over UDP are compared with the reply the
+    statement asks for, for versions 1..5 x procedures {0,1,3,4,5} x 4 addresses x 5 (thorough: 7) ports.
+    Returns [(ok, info)]."""
+    out = []
+    d = R.Driver(repo)
+    try:
+        d.cfg(mac=R.MAC)
+        ports = C16_PORTS if thorough else C16_PORTS[:5]
+        for ip in C16_IPS:
+            v6 = ':' in ip
+            src = '2001:db8::99' if v6 else '10.0.0.99'
+            for port in ports:
+                for vers in (1, 2, 3, 4, 5):
+                    for proc in (0, 1, 3, 4, 5):
+                        xid = 0x11220000 | (vers << 8) | proc
+                        call = struct.pack('!IIIIIIIIII', xid, 0, 2, 100000, vers, proc, 0, 0, 0, 0)
+                        dg = R.udp(40000, port, call)
+                        fr = R.eth(R.MAC, R.PEER, 0x86dd if v6 else 0x0800, R.ip6(src, ip, 17, dg) if v6 else R.ip4(src, ip, 17, dg))
+                        r = d.frame(fr)
+                        got = None
+                        if r[0] == 'reply':
+                            off = 14 + (40 if v6 else 20) + 8
+                            got = r[1][off:]
+                        exp = portmap_expected(xid, vers, proc, ip, port)
+                        name = 'ground/C16/portmap/v%d/proc%d' % (vers, proc)
+                        if got != exp:
+                            out.append((False, {'obligation': name, 'dst_ip': ip, 'dst_port': port, 'version': vers,
+                                                'procedure': proc, 'frame_hex': fr.hex(), 'expected_payload_hex': exp.hex(),
+                                                'got_payload_hex': got.hex() if got is not None else r[0]}))
+                        else:
+                            out.append((True, {'obligation': name}))
+    finally:
+        d.close()
+    return out
+
 # ----------------------------------------------------------------------------- per-property driver
 def run(pid, tier, repo, build, seed):
     res = {'obligations': 0, 'discharged': 0, 'violations': [], 'undecided': [], 'details': []}
@@ -79,11 +148,12 @@ def run(pid, tier, repo, build, seed):
     except R.BuildError as e:
         res['undecided'].append('hook binary does not build: ' + str(e)[-400:])
         return res
-    def add(ok, info, name, tags_desc, as_violation=True):
-        res['obligations'] += 1
+    def add(ok, info, name, tags_desc, as_violation=True, bounded=False):
+        # bounded stand-ins are counted apart: they are executions over a stated finite sample, never proofs
+        res['bounded_checks' if bounded else 'obligations'] = res.get('bounded_checks' if bounded else 'obligations', 0) + 1
         res['details'].append(info)
         if ok:
-            res['discharged'] += 1
+            res['bounded_passed' if bounded else 'discharged'] = res.get('bounded_passed' if bounded else 'discharged', 0) + 1
         elif as_violation:
             res['violations'].append({'obligation': name, 'unit': 'ground', 'fn': name, 'kind': 'ground', 'message': tags_desc,
                                       'tags': [pid], 'clause': tags_desc, 'clause_at': None, 'site': None, 'site_text': json.dumps(info),
@@ -136,6 +206,20 @@ def run(pid, tier, repo, build, seed):
             same, info = g_c11_prefix(repo)
             add(same, info, 'ground/C11/identification-prefix-not-fed',
                 'the first request on a flow is answered identically however the stream is cut (witness: GET / HTTP/1.1 cut after 2 bytes)')
+        if pid == 'C16':
+            rs = g_c16_portmap(repo, thorough=(tier == 'thorough'))
+            groups = {}
+            for ok, info in rs:
+                g_ = groups.setdefault(info['obligation'], {'n': 0, 'bad': []})
+                g_['n'] += 1
+                if not ok: g_['bad'].append(info)
+            res['bounded'] = {'what': 'portmapper replies over UDP on the hook binary vs. the reply written from the statement (stand-in for the assumed contract of rpc::build_repl_portmap)',
+                              'bound': '%d calls: versions 1..5 x procedures {0,1,3,4,5} x %d destination addresses x %d ports' % (len(rs), len(C16_IPS), len(rs) // (25 * len(C16_IPS))),
+                              'counted_as_proved': False}
+            for name, g_ in sorted(groups.items()):
+                first = g_['bad'][0] if g_['bad'] else {}
+                add(not g_['bad'], dict(first, obligation=name, calls=g_['n'], mismatches=len(g_['bad'])), name,
+                    'BOUNDED: portmapper reply for this version/procedure equals the reply the statement asks for (%d sampled destinations)' % g_['n'], bounded=True)
         if pid in ('C07', 'C08'):
             rep, info = g_cookie_collision(repo)
             # the obligation "distinct flows have distinct cookies" is FALSE when the witness reproduces
@@ -161,6 +245,23 @@ def replay(pid, path, repo, build):
         print(json.dumps(info, indent=1))
         print('REPRODUCED' if rep else 'not reproduced')
         return 1 if rep else 0
+    if isinstance(w, dict) and w.get('frame_hex') and w.get('expected_payload_hex') is not None:
+        # a frame whose application payload reply must equal the expected bytes (C16 portmapper stand-in)
+        d = R.Driver(repo)
+        try:
+            d.cfg(mac=R.MAC)
+            fr = bytes.fromhex(w['frame_hex'])
+            r = d.frame(fr)
+        finally:
+            d.close()
+        v6 = fr[12:14] == b'\x86\xdd'
+        got = r[1][14 + (40 if v6 else 20) + 8:].hex() if r[0] == 'reply' else r[0]
+        print('frame    %s' % w['frame_hex'])
+        print('expected %s' % w['expected_payload_hex'])
+        print('got      %s' % got)
+        bad = got != w['expected_payload_hex']
+        print('REPRODUCED' if bad else 'not reproduced')
+        return 1 if bad else 0
     print(json.dumps(w, indent=1))
     return 2
 
